@@ -126,6 +126,8 @@ class Entry:
         self.first = self.last = None
         self.merge_prev = False       # stray lines swallowed by the preceding invalid item
         self.fin_only = False
+        self.form = None              # the written form exercised (form_xact)
+        self.unchecked = None         # an undeclared commodity in a position ledger does not check
 
 
 class JFile:
@@ -263,6 +265,8 @@ class Builder:
         es.append(Entry(lines, tag='decl'))
         es.append(Entry([('commodity EUR', ['i', [], 1, []])], tag='decl'))
         es.append(Entry([('tag Known', ['i', [], 1, []])], tag='decl'))
+        es.append(Entry([('tag Payee', ['i', [], 1, []])], tag='decl'))
+        es.append(Entry([('commodity "MF A"', ['i', [], 1, []])], tag='decl'))
         for p in PAYEES:
             lines = [('payee ' + p, ['i', [], 1, []])]
             if rng.random() < 0.2:
@@ -407,6 +411,132 @@ class Builder:
                 self.bank[bank_name] = self.bank.get(bank_name, 0) + last
         return e
 
+    # -- names in every written form ----------------------------------------------------------
+    FORMS_COMM = ['lot', 'cost', 'valexpr', 'quoted']            # the posting's own commodity: checked
+    FORMS_ACCT = ['virtual', 'vpair']                            # accounts of virtual postings: checked
+    FORMS_UNCHECKED = ['costcomm', 'lotprice', 'assign', 'assert0']   # commodities ledger does not look at (findings F130 / F131)
+
+    def form_xact(self, want_fault):
+        """a small transaction that uses a (declared or undeclared) commodity / account / payee in
+        one of the written forms other than `ACCOUNT  AMOUNT`.  -> Entry, or None when the options in
+        force make no such use an error although one is wanted."""
+        rng = self.rng
+        rc, ra, rp = (doc_reaction(self.opts, k) for k in ('commodity', 'account', 'payee'))
+        valid = [a for a in self.valid_accounts() if a != BANK]
+        a1, a2 = rng.sample(valid, 2)
+        if want_fault:
+            forms = ((self.FORMS_COMM if rc == 'error' else []) + (self.FORMS_ACCT if ra == 'error' else [])
+                     + (['payeetag'] if rp == 'error' else []))
+            if not forms:
+                return None
+            form = rng.choice(forms)
+            undeclared = True
+        else:
+            form = rng.choice(self.FORMS_COMM + self.FORMS_ACCT + self.FORMS_UNCHECKED + ['payeetag', 'bare'])
+            react = {'payeetag': rp, 'virtual': ra, 'vpair': ra}.get(form, rc)
+            undeclared = rng.random() < 0.5 and (react != 'error' or form in self.FORMS_UNCHECKED)
+        q = rng.choice([1, 2, 5, 10, 25])
+        pr = rng.choice([1, 2, 5, 120])
+        good = rng.choice(['EUR'] + self.extra_comms)
+        bad = rng.choice(TYPO_COMMS + ['UND'])
+        C = bad if undeclared else good
+        head = '%s %s' % (self.date(), rng.choice(self.payees))
+        l1, l2 = ['s'], ['s']
+        extra = []
+        classes, unchecked = [], None
+        p2 = '    ' + a2
+        if form == 'lot':
+            anns = ['{$%d}' % pr, '{{$%d}}' % (pr * q), '{=$%d}' % pr, '[2021/03/01]', '(a note)', '((2 + %d))' % pr]
+            k = rng.randrange(len(anns))
+            ann = anns[k]
+            if rng.random() < 0.3:
+                ann = ' '.join([anns[j] for j in sorted(rng.sample([0, 3, 4], 2))])     # price, date, note together
+            amt = '%d %s %s' % (q, C, ann)
+            if rng.random() < 0.2:
+                amt += ' @ $%d' % (pr + 1)
+            p1 = '    %s  %s' % (a1, amt)
+            if undeclared:
+                l1.append(A_COMM); classes.append('commodity')
+        elif form == 'cost':
+            p1 = '    %s  %d %s %s' % (a1, q, C, rng.choice(['@ $%d' % pr, '@@ $%d' % (pr * q), '(@) $%d' % pr, '(@@) $%d' % (pr * q)]))
+            if undeclared:
+                l1.append(A_COMM); classes.append('commodity')
+        elif form == 'valexpr':
+            p1 = '    %s  (%d * %d %s)' % (a1, rng.choice([2, 3]), q, C)
+            if undeclared:
+                l1.append(A_COMM); classes.append('commodity')
+        elif form == 'quoted':
+            sym = '"MF B"' if undeclared else '"MF A"'
+            p1 = '    %s  %s' % (a1, rng.choice(['%d %s' % (q, sym), '%s %d' % (sym, q), '%d %s {$%d}' % (q, sym, pr)]))
+            if undeclared:
+                l1.append(A_COMM); classes.append('commodity')
+        elif form == 'bare':
+            p1 = '    %s  %d' % (a1, q)
+        elif form == 'costcomm':
+            # (a cost must be in another commodity than the amount)
+            cost = ('%d ' + C) if undeclared else '$%d'
+            p1 = '    %s  %d %s %s' % (a1, q, good, rng.choice(['@ ' + cost % pr, '@@ ' + cost % (pr * q), '(@) ' + cost % pr]))
+            unchecked = 'cost' if undeclared else None
+        elif form == 'lotprice':
+            p1 = '    %s  %d %s {%s}' % (a1, q, good, ('%d %s' % (pr, C)) if undeclared else '$%d' % pr)
+            unchecked = 'lot-price' if undeclared else None
+        elif form == 'assign':
+            p1 = '    %s  = %d %s' % (a1, q, C)
+            unchecked = 'assignment' if undeclared else None
+        elif form == 'assert0':
+            # the account holds nothing in that commodity: the assertion is true
+            n = self.uniq()
+            fresh = 'UN' + ''.join(chr(65 + (n // 26 ** i) % 26) for i in range(3))    # used nowhere else
+            p1 = '    %s  $%d.00 = 0 %s' % (a1, q, fresh)
+            if not undeclared:
+                p1 = '    %s  $%d.00' % (a1, q)
+            unchecked = 'assertion' if undeclared else None
+        elif form in ('virtual', 'vpair'):
+            acct = rng.choice(self.undeclared_accounts()) if undeclared else rng.choice(valid)
+            br = '(%s)' if form == 'virtual' else '[%s]'
+            if form == 'virtual':
+                p1 = '    %s  $%d.00' % (a1, q)
+                extra = [('    %s  $%d.00' % (br % acct, pr), ['s', A_ACCT] if undeclared else ['s'])]
+            else:
+                p1 = '    %s  $%d.00' % (br % acct, q)
+                p2 = '    [%s]  $-%d.00' % (a2, q)
+                if undeclared:
+                    l1.append(A_ACCT)
+            if undeclared:
+                classes.append('account')
+        else:   # payeetag: `; Payee: NAME` on the posting line or on the next line
+            name = rng.choice(TYPO_PAYEES + ['Stranger %d' % self.uniq()]) if undeclared else rng.choice(self.payees)
+            p1 = '    %s  $%d.00' % (a1, q)
+            if rng.random() < 0.5:
+                p1 += '  ; Payee: ' + name
+                if undeclared:
+                    l1.append(A_PAYEE)
+            else:
+                extra = [('    ; Payee: ' + name, ['s', A_PAYEE] if undeclared else ['s'])]
+            if undeclared:
+                classes.append('payee')
+        lines = [(head, ['i', [], 1, []]), (p1, l1)]
+        if extra and form == 'payeetag':
+            lines += extra
+            extra = []
+        lines.append((p2, l2))
+        if extra:
+            lines.insert(rng.randrange(1, len(lines) + 1), extra[0])
+        if rng.random() < 0.1:
+            lines = [(('\t' + t[4:]) if t.startswith('    ') else t, sh) for t, sh in lines]
+        faults = sorted({DCLASS[k] for k in classes if doc_reaction(self.opts, k) == 'error'})
+        e = Entry(lines, faults=faults, tag='xact')
+        e.warns = sorted({DCLASS[k] for k in classes if doc_reaction(self.opts, k) == 'warning'})
+        e.defects = ['form:' + form] + classes
+        e.prefix = ':'.join(self.prefix)
+        e.form = form
+        e.unchecked = unchecked if rc in ('error', 'warning') else None
+        if form in ('virtual', 'vpair'):
+            self.used_virtual = True
+        if not faults:
+            self.valid_xacts += 1
+        return e
+
     # -- other items ---------------------------------------------------------------------------
     def filler(self):
         n = self.rng.choice([1, 1, 1, 2])
@@ -482,6 +612,10 @@ def faulty_item(b, rng):
     r = rng.random()
     if r < 0.08:
         return b.bad_directive()
+    if r < 0.3:
+        e = b.form_xact(True)
+        if e is not None:
+            return e
     eff = b.effective()
     ds = [rng.choice(eff)]
     if rng.random() < 0.25:
@@ -496,8 +630,10 @@ def valid_item(b, rng):
     r = rng.random()
     if r < 0.2:
         return b.valid_directive()
+    if r < 0.4:
+        return b.form_xact(False)
     h = b.harmless()
-    if r < 0.45 and h:
+    if r < 0.6 and h:
         return b.xact(rng.sample(h, min(len(h), rng.choice([1, 1, 2, 3]))))
     return b.xact([])
 
@@ -678,6 +814,8 @@ def build_case(rng, idx, nfault=None, opts=None, multi=None):
     c.files = b.files
     c.valid_xacts = b.valid_xacts
     c.cmd = list(rng.choice(COMMANDS))
+    if getattr(b, 'used_virtual', False) and c.cmd == ['reg', '-M']:
+        c.cmd = ['reg']        # (subtotalled reports refuse real and virtual postings to one account: filters.cc:931)
     finish_case(c)
     return c
 
@@ -720,7 +858,7 @@ def finish_case(c):
                 last_item = prev_faulty
                 continue
             it = dict(file=f.name, first=e.first, last=e.last, faults=list(e.faults), warns=list(e.warns), tag=e.tag,
-                      prefix=getattr(e, 'prefix', ''))
+                      prefix=getattr(e, 'prefix', ''), form=e.form, unchecked=e.unchecked)
             c.items.append(it)
             last_item = it
             prev_faulty = it if e.faults else None
@@ -886,6 +1024,18 @@ def oracle(items, roots, status, out, msgs, nerr, stderr_text, opts, warns=(), b
                     v.append(('strict-warning-missing:' + names,
                               'under --strict the undeclared name in %s lines %d-%d got no located warning' % (it['file'], it['first'], it['last']),
                               [w['text'] for w in warns][:5], 'a Warning: naming the file and a line of the item'))
+    # undeclared commodities in positions ledger does not look at (documentation: "commodities not
+    # previously declared will cause errors" / "warnings")
+    for it in items:
+        if it.get('unchecked') and not it['faults']:
+            if style == 'error' and not any(inside(m, it) for m in msgs):
+                v.append(('undeclared-commodity-unchecked:' + it['unchecked'],
+                          'under --pedantic the undeclared commodity used as %s in %s lines %d-%d is accepted without a message'
+                          % (it['unchecked'], it['file'], it['first'], it['last']), 'no message', 'an Error: located in the item'))
+            elif style == 'warning' and not any(inside(w, it) for w in warns):
+                v.append(('undeclared-commodity-unwarned:' + it['unchecked'],
+                          'under --strict the undeclared commodity used as %s in %s lines %d-%d is accepted without a warning'
+                          % (it['unchecked'], it['file'], it['first'], it['last']), 'no warning', 'a Warning: located in the item'))
     if not faulty:
         if nerr or 'While parsing file' in stderr_text:
             v.append(('clean-journal:error-message', 'a journal in which every item is valid (options: %s) produced an error message' % mode,
@@ -1031,6 +1181,8 @@ def evaluate(ctx, res, cases, tagname):
                 res.count('fault:' + KNAME[k])
             for k in it['warns']:
                 res.count('expected-warning:' + KNAME[k])
+            if it.get('form'):
+                res.count('written-form:%s:%s' % (it['form'], 'error' if it['faults'] else ('warning' if it['warns'] else ('unchecked' if it.get('unchecked') else 'accepted'))))
         for m in msgs:
             res.count('impl-message:' + KNAME.get(m['kind'], 'unclassified'))
             if m['chain']:
@@ -1076,7 +1228,9 @@ def run(ctx, n_override=None):
                 'malformed directives, stray indented lines, two faults in one transaction; plus journals with exactly 255, 256, 257, '
                 '300, 512 and random 100-300 faults; `apply account ROOT` blocks (nested, around declarations and transactions, with includes inside) '
                 'and --master-account, with accounts declared inside the block, by full name outside it, or only under another prefix, and '
-                'commodity / tag / payee directives inside blocks as controls; each journal is read under a subset of --strict --pedantic --permissive --check-payees '
+                'commodity / tag / payee directives inside blocks as controls; names in every written form (lot annotations {P} {{T}} {=P} [DATE] (NOTE) ((EXPR)), '
+                'costs @ @@ (@), value-expression amounts, commodity-less and quoted amounts, balance assignments and assertions, virtual ( ) and [ ] postings, '
+                '`; Payee:` tags on the posting line or the next) with declared and undeclared names; each journal is read under a subset of --strict --pedantic --permissive --check-payees '
                 '(all 16 occur), each option given on the command line, in an init file or through LEDGER_* in the environment; '
                 'non-trivial = at least one injected fault, expected warning or include; distinct by options + shape')
     n = n_override or ctx.scale(2500, 20000)
